@@ -344,6 +344,11 @@ class ProxyWorld:
             coro = inst.handle_stream(conn.reader, conn.writer)
         task = self.loop.create_task(coro, name=f"sim-client-{conn.id}")
         conn.task = task
+        conn.handler_done_at = None  # virtual time at which handle_client (incl. its teardown) returned
+
+        def _done(_t, conn=conn):
+            conn.handler_done_at = self.loop.time()
+        task.add_done_callback(_done)
         self.client_tasks.append(task)
         return conn
 
